@@ -81,7 +81,13 @@ def ops : List (String × Handler) := [
       let files ← jList (jPair jStr (jList jInt)) (← arg j "files")
       pure (match mergeFiles (files.map (fun f => (f.1.toList, f.2))) with
             | none => jErr "error"
-            | some r => ofIntList r))
+            | some r => ofIntList r)),
+  -- text records (a record may start with '#'), `header_lines` as passed by the caller of merge_files
+  ("merge_lines", fun j => do
+      let files ← jList (jPair jStr (jList jStr)) (← arg j "files")
+      pure (match mergeFilesH (← jNat (← arg j "header_lines")) (files.map (fun f => (f.1.toList, f.2))) with
+            | none => jErr "error"
+            | some r => ofList ofStr r))
 ]
 
 end IsoVerif.Driver.C03
